@@ -665,7 +665,7 @@ Qed.
    transaction, unchanged after a rejected one) *)
 Definition model_step (pre : ostate) (t : tx) (bal : addr -> Z) : stepobs :=
   let res := tante repaired (mkCtx 0 g) (state_of pre) t in
-  mkStep t (signers t) (class_of res) (match res with Ok s' => obs_of bal s' | _ => pre end).
+  mkStep t (signers t) (class_of res) (match res with Ok s' => obs_of bal s' | _ => pre end) false.
 
 Theorem chk_step_sound : forall pre t bal, NoDup (map fst pre) -> step_clauses T g pre (model_step pre t bal) = [].
 Proof.
@@ -1060,3 +1060,35 @@ Proof.
   - unfold single_msg. rewrite M. reflexivity.
 Qed.
 End SingleMessage.
+
+(* ------------------------------------------------------------------------------------------
+   The WHOLE ante chain.  Model/Auth.ante is the projection of NewAnteHandler onto the
+   authentication decorators; that projection is only meaningful if every decorator in front of
+   (and between) them continues the chain on every accepting path.  Abstract semantics of
+   sdk.ChainAnteDecorators: a decorator continues (DNext), rejects (DFail), or accepts without
+   calling next (DStop). *)
+Section Chain.
+Variable S : Type.
+Inductive dstep := DNext (s : S) | DFail | DStop (s : S).
+Fixpoint run_chain (ds : list (S -> dstep)) (s : S) : option S :=
+  match ds with
+  | [] => Some s
+  | d :: r => match d s with DNext s' => run_chain r s' | DFail => None | DStop s' => Some s' end
+  end.
+Definition never_stops (d : S -> dstep) : Prop := forall s s', d s <> DStop s'.
+
+(* if no decorator can accept without calling next, an accepted transaction went through EVERY decorator *)
+Theorem chain_accept_runs_every_decorator : forall pre d post s s',
+  Forall never_stops (pre ++ d :: post) ->
+  run_chain (pre ++ d :: post) s = Some s' ->
+  exists s1 s2, run_chain pre s = Some s1 /\ d s1 = DNext s2 /\ run_chain post s2 = Some s'.
+Proof.
+  induction pre as [|e pre IH]; intros d post s s' NS H; simpl in *.
+  - inversion NS as [|? ? N _]; subst. destruct (d s) as [s2|s2|s2] eqn:E; try discriminate.
+    + exists s, s2. auto.
+    + exfalso. eapply N; eauto.
+  - inversion NS as [|? ? N NS']; subst. destruct (e s) as [s2| |s2] eqn:E; try discriminate.
+    + apply IH; auto.
+    + exfalso. eapply N; eauto.
+Qed.
+End Chain.
